@@ -57,10 +57,10 @@ Definition order_prio (prio : list nat) (_ : nat) (alive : list nat) : list nat 
 Definition jpair (x : nat * wres) : jv := JL [jnat (fst x); jres (snd x)].
 Definition jwait (x : nat * Q) : jv := JL [jnat (fst x); jq (snd x)].
 
-Definition run_procs (ps : list proc) (prio : list nat) (timeout : option Q) (cb : cbkind)
+Definition run_procs_in (ps : list proc) (input : list nat) (prio : list nat) (timeout : option Q) (cb : cbkind)
     (fuel rounds : nat) (start : Q) : jv :=
   let '(exc, gone, alive, g) :=
-      wait_procs (map to_ko ps) cb fuel (order_prio prio) timeout rounds start in
+      wait_procs_of (map to_ko ps) cb fuel (order_prio prio) input timeout rounds start in
   JL [ jopt jres exc;
        JL (map jnat gone); JL (map jnat alive);
        JL (map jpair (rev (g_rc g)));
@@ -68,7 +68,11 @@ Definition run_procs (ps : list proc) (prio : list nat) (timeout : option Q) (cb
        jqs (rev (g_sleeps g));
        jq (g_now g);
        JL (map jwait (rev (g_waits g)));
-       jbool (spec_procs ps cb start timeout exc gone alive (g_rc g) (g_cb g) (g_now g)) ].
+       jbool (spec_procs_in input ps cb start timeout exc gone alive (g_rc g) (g_cb g) (g_now g)) ].
+
+(* every process listed once *)
+Definition run_procs (ps : list proc) : list nat -> option Q -> cbkind -> nat -> nat -> Q -> jv :=
+  run_procs_in ps (seq 0 (length ps)).
 
 Definition run_decode (st : Z) : jv := jres (decode_status st).
 
